@@ -1,12 +1,48 @@
 """C11: point location against rings and lines is exact."""
+import random
 import vlib
 from props import exact_common as ec
 
 PIPES = {"locate": ec.pipe("locate")}
 
 
+def seeded(seed, n):
+    """Rings of 3..8 vertices on grids up to 4000 with query points aimed at the boundary cases: lattice points ON
+    edges (at every ratio the grid allows), their neighbours one step away, vertices, points level with a vertex,
+    points on the supporting line beyond an edge, and random points."""
+    r = random.Random(seed)
+    out = []
+    for k in range(n):
+        G = r.choice([6, 6, 12, 30, 100, 1000, 4000])
+        m = r.choice([3, 3, 4, 5, 6, 8])
+        ring = [ec.rnd_pt(r, G) for _ in range(m)]
+        if k % 5 == 0:          # a horizontal edge and a repeated vertex
+            ring[1] = [ring[0][0] + r.randrange(1, G + 1), ring[0][1]]
+            ring[-1] = ring[-2][:]
+        qs = []
+        closed = ring + [ring[0]]
+        for i in range(m):
+            a, b = closed[i], closed[i + 1]
+            p = ec.lattice_on(r, a, b)
+            qs.append(p)
+            qs.append([p[0] + r.choice([-1, 1]), p[1]])
+            qs.append([p[0], p[1] + r.choice([-1, 1])])
+            qs.append([a[0] - r.randrange(0, G + 1), a[1]])          # level with a vertex, to its left
+            qs.append([2 * b[0] - a[0], 2 * b[1] - a[1]])            # on the supporting line, beyond b
+        qs.append(ring[0][:])
+        qs += [ec.rnd_pt(r, G) for _ in range(4)]
+        out.append(dict(ring=ring, n=0, qs=qs[:48]))
+    return out
+
+
 def run(ctx, verdict):
     ec.family(ctx, verdict, "locate", nontrivial=lambda c: len({tuple(p) for p in c["ring"]}) >= 3)
+    cases = seeded(ctx.seed, 1500 if ctx.quick else 20000)
+    vlib.note_cases(ctx, cases, nontrivial=lambda c: len({tuple(p) for p in c["ring"]}) >= 3)
+    ec.pipe("locate")(ctx, verdict, cases)
+    ctx.coverage_extra["seeded"] = dict(rings=len(cases), grids=[6, 12, 30, 100, 1000, 4000], queries_per_ring="<= 48")
     ctx.assumptions += ["rings: every vertex sequence of 3..K points on the N x N grid (self-intersecting, repeated and "
                         "collinear vertices included), closed by the driver; each ring also reversed, rotated, with "
-                        "duplicated vertices and in XYZ / XYZM / Layout(5) with junk extra ordinates (NaN, +-Inf)"]
+                        "duplicated vertices and in XYZ / XYZM / Layout(5) with junk extra ordinates (NaN, +-Inf)",
+                        "seeded tier: rings of 3..8 vertices on grids up to 4000 (cross products stay within TLC's "
+                        "32-bit integers) with query points on, next to and level with the edges"]
